@@ -1,5 +1,5 @@
 """C11 -- both solver back-ends solve the same problem and report duals in one convention."""
-from . import wrappers, pepsolve, translate
+from . import wrappers, pepsolve, translate, state, common
 
 LEVEL = "other"
 EXPLANATION = ("Sibling cross-checking of the two subclasses of the wrapper base class -- the only way to examine the MOSEK back-end in this sandbox "
@@ -7,7 +7,7 @@ EXPLANATION = ("Sibling cross-checking of the two subclasses of the wrapper base
                "same tracked-list discipline and alignment (R-TRACK), same sense mapping (R-SENSE), one dual sign transformation (R-SIGN), row-index "
                "bookkeeping (R-ROWIDX), provenance of matrix-variable indices (R-BARIDX) and of the objective slot (R-OBJSLOT), same heuristic constraint "
                "and objective (R-HEUR), LMI encodings (R-LMIENC), sparse translator (R-TRANSL), objective sense (R-OBJSENSE)."
-               ' Also: MOSEK row data (Gram matrix with weight 1 on bar-variable 0, F weights on their columns), variable counts consistent with generate_problem, packed-triangle unpacking unrolled for sizes 1..4, row-index arrays not narrowed to int8.')
+               ' Also: MOSEK row data (Gram matrix with weight 1 on bar-variable 0, F weights on their columns), variable counts consistent with generate_problem, packed-triangle unpacking unrolled for sizes 1..4, row-index arrays not narrowed to int8; the objective leaf both back-ends are generated with is a new leaf created by every solve before anything is sent (R-FRESH: the position-based objective slot of the MOSEK back-end has no other chance of being right), and the arguments of the wrapper calls travel to the parameters of their own names (R-ARGBIND).')
 TRUSTED = ["CPython ast", "MOSEK Task API facts: bar-variables and rows are numbered in append order; sparse symmetric matrices are lower-triangular; "
            "gety / getbarsj return the multipliers of rows / matrix variables"]
 ASSUMPTIONS = ["equality of optimal values / instances as numbers is not decided"]
@@ -28,5 +28,7 @@ def run(ctx):
     wrappers.r_mosekrow(ctx)
     translate.r_transl(ctx)
     pepsolve.r_objsense(ctx)
+    state.r_objective_fresh(ctx)
+    common.r_argbind(ctx, {"prepare_heuristic", "heuristic", "generate_problem", "send_constraint_to_solver", "send_lmi_constraint_to_solver", "assign_dual_values", "expression_to_sparse_matrices", "expression_to_matrices"})
     ctx.floor("bar-variable index sites", nb, 6)
     ctx.floor("objective-slot sites", no, 2)
